@@ -78,6 +78,8 @@ def plan(tier, seed):
         for p, (f, n) in enumerate(split(80, 2)):
             shards.append(dict(name=f'cfault{p}', mode='rt', kind='cond-fault',
                                first_case=f, n=n, secs=40, hard_timeout=160))
+        shards.append(dict(name='cctl0', mode='nrt', kind='cond-ctl', first_case=0, n=1500,
+                           secs=40, hard_timeout=160))
         for p, (f, n) in enumerate(split(300, 2)):
             shards.append(dict(name=f'crace{p}', mode='rt', kind='cond-race',
                                first_case=f, n=n, secs=30, hard_timeout=160))
@@ -100,6 +102,9 @@ def plan(tier, seed):
         for p, (f, n) in enumerate(split(6000, 6)):
             shards.append(dict(name=f'cfault{p}', mode='rt', kind='cond-fault',
                                first_case=f, n=n, secs=520, hard_timeout=700))
+        for p, (f, n) in enumerate(split(300000, 2)):
+            shards.append(dict(name=f'cctl{p}', mode='nrt', kind='cond-ctl', first_case=f, n=n,
+                               secs=500, hard_timeout=700))
         for p, (f, n) in enumerate(split(40000, 4)):
             shards.append(dict(name=f'crace{p}', mode='rt', kind='cond-race',
                                first_case=f, n=n, secs=500, hard_timeout=700))
@@ -891,6 +896,12 @@ def run_cond_fault(spec, acc):
                 log.append(('late', v))
             stm.Routine(late).play(clk.SystemClock)
         time.sleep(0.12)
+        if use_flow:
+            # (bounded wait instead of a fixed one: on a loaded host the clock thread
+            # may need longer than 0.12 s to serve the late reader)
+            t_late = time.time() + 5.0
+            while time.time() < t_late and not any(e[0] == 'late' for e in list(log)):
+                time.sleep(0.01)
         with main._main_lock:
             got = list(log)
         for c in tcs:
@@ -1072,6 +1083,138 @@ def run_cond_race(spec, acc):
     acc.count('injected_yields', inj.injected)
 
 
+def run_cond_ctl(spec, acc):
+    """A routine parked on a Condition / FlowVar while another routine applies
+    pause, resume, play (of the paused waiter), signals with the test false,
+    signals with the test true, unhang and value assignment to it, in any order
+    (NRT: deterministic; the operations are one tick apart).  Reference: the
+    waiter may go on only after a release (signal with the test true, unhang,
+    value assignment) issued since it parked - "never before"; once released it
+    goes on exactly once, as soon as it is not paused - at the release if it is
+    not paused then, at the resume / play otherwise; it never goes on twice."""
+    from sc3.base.main import main
+    from sc3.base import clock as clk, stream as stm
+    for i in iter_cases(spec):
+        rng = case_rng(spec['seed'], 'C11', 'cctl', i)
+        main.reset()
+        use_flow = rng.random() < 0.4
+        onclock = rng.choice(['SystemClock', 'TempoClock', 'AppClock'])
+        n = rng.randint(2, 7)
+        ops = []
+        for _ in range(n):
+            ops.append(rng.choice(['pause', 'resume', 'resume', 'play', 'sig0', 'release',
+                                   'pause', 'resume']))
+        if 'release' not in ops and rng.random() < 0.7:
+            ops.insert(rng.randint(0, len(ops)), 'release')
+        ops.append('resume')            # a paused waiter is let go at the end
+        how_rel = rng.choice(['signal', 'unhang']) if not use_flow else 'value'
+        flag = [False]
+        cond = stm.Condition(lambda: flag[0])
+        fv = stm.FlowVar()
+        log = []
+        box = {}
+
+        def setup():
+            clock = {'SystemClock': clk.SystemClock, 'AppClock': clk.AppClock}.get(onclock) \
+                or clk.TempoClock(2)
+            box['clock'] = clock
+
+            def body():
+                log.append(('parked',))
+                if use_flow:
+                    v = yield from fv.value
+                    log.append(('went-on', v))
+                else:
+                    yield from cond.wait()
+                    log.append(('went-on', flag[0]))
+                yield 0
+                log.append(('next-step',))
+            r = stm.Routine(body)
+            box['r'] = r
+            r.play(clock, 0) if onclock == 'TempoClock' else r.play(clock)
+
+            def ctrl():
+                yield 1
+                for op in ops:
+                    try:
+                        if op == 'pause':
+                            r.pause()
+                        elif op == 'resume':
+                            r.resume()
+                        elif op == 'play':
+                            r.play(clock, 0) if onclock == 'TempoClock' else r.play(clock)
+                        elif op == 'sig0':
+                            if not use_flow:
+                                cond.signal()       # test false: releases nobody
+                        else:
+                            if use_flow:
+                                fv.value = 5
+                            else:
+                                if how_rel == 'signal':
+                                    flag[0] = True
+                                getattr(cond, how_rel)()
+                        log.append(('op', op, 'ok'))
+                    except Exception as e:      # noqa (refusals are legal answers)
+                        log.append(('op', op, type(e).__name__))
+                    yield 1
+                log.append(('ctrl-done',))
+            stm.Routine(ctrl).play(clk.SystemClock)
+        stm.Routine(_once(setup)).play(clk.SystemClock)
+        try:
+            main.process()
+        except Exception as e:      # noqa
+            acc.violation(f'C11/cond-control/process-raised/{type(e).__name__}',
+                          {'case': i, 'ops': ops, 'tb': short_tb(e)})
+            continue
+        acc.count('cond_control_cases')
+        acc.count('cond_control_ops', len(ops))
+        # judge the log
+        released = False
+        paused = False
+        went = 0
+        what = None
+        seen_ops = []
+        for e in log:
+            if e[0] == 'op':
+                seen_ops.append(e[1])
+                if e[2] != 'ok':
+                    continue
+                if e[1] == 'pause':
+                    paused = went == 0 or paused
+                elif e[1] in ('resume', 'play'):
+                    paused = False
+                elif e[1] == 'release':
+                    if not (use_flow and released):
+                        released = True
+            elif e[0] == 'went-on':
+                went += 1
+                if went > 1:
+                    what = 'waiter-resumed-twice'
+                elif not released:
+                    ok_ops = [x[1] for x in log if x[0] == 'op' and x[2] == 'ok']
+                    k = ok_ops.index('pause') if 'pause' in ok_ops else None
+                    if k is not None and any(o in ('resume', 'play') for o in ok_ops[k + 1:]):
+                        what = ('waiter-resumed-without-release/'
+                                'paused-and-resumed-while-parked')
+                    else:
+                        what = 'waiter-resumed-without-release/other'
+                    acc.count('cond_control_resumed_without_release')
+                if what:
+                    break
+        if what is None and released and went == 0:
+            what = 'waiter-never-resumed-after-release/' + (
+                'released-while-paused' if 'pause' in seen_ops[:seen_ops.index('release')]
+                else 'released-while-parked')
+        acc.case(h64(('cctl', use_flow, onclock, tuple(ops), how_rel)),
+                 nontrivial='pause' in ops and 'release' in ops)
+        if released and went == 1 and what is None:
+            acc.count('cond_control_resumed_once_after_release')
+        if what:
+            acc.violation(f'C11/cond-control/{what}',
+                          {'case': i, 'ops': ops, 'release_by': how_rel, 'clock': onclock,
+                           'flowvar': use_flow, 'log': log[:24]})
+
+
 def run_pause_resume(spec, acc):
     """A routine yielding a constant delta plays on a real clock; a controller
     routine pauses and resumes it (or stops, resets and plays it again) between
@@ -1213,6 +1356,8 @@ def run_shard(spec, acc):
         return run_fsm_mt(spec, acc)
     if kind == 'cond-race':
         return run_cond_race(spec, acc)
+    if kind == 'cond-ctl':
+        return run_cond_ctl(spec, acc)
     if kind == 'cond-fault':
         return run_cond_fault(spec, acc)
     if kind == 'fsm':
